@@ -193,3 +193,5 @@ import asmx as _asmx  # noqa: E402
 PROPS["C16"]["custom"] = _c16.run
 PROPS["C01"]["custom"] = _asmx.run
 PROPS["C15"]["custom"] = _asmx.run
+import rbind as _rbind  # noqa: E402
+PROPS["C09"]["custom"] = _rbind.iter_step
